@@ -349,3 +349,53 @@ package mocker
 //@   ensures too_few_returns_rejected: returns != nil && len(returns) < rt_numout(impTyp) ==> result != nil
 //@   ensures too_few_args_rejected: args != nil && len(args) + ite(isMethod, int(1), int(0)) < rt_numin(impTyp) ==> result != nil
 //@   ensures well_formed_accepted: (returns == nil || len(returns) >= rt_numout(impTyp)) && (args == nil || len(args) + ite(isMethod, int(1), int(0)) >= rt_numin(impTyp)) ==> result == nil
+
+// ---- C02/C12: Reset cancels every mocker the builder has handed out ---------------------------------------------------------
+// mocker_cancelled[m]: ghost, m.Cancel() has run.
+//@ ghost var mocker_cancelled map[Mocker]bool
+//@ extern func (github.com/tencent/goom.Mocker).Cancel
+//@   assigns mocker_cancelled[self], textmem, perm, mutex_held[addr(patch.patchesLock)], rw_wheld[addr(memory.memoryAccessLock)], guard_cancelled, varval,
+//@     | anyfield(baseMocker, when), anyfield(baseMocker, origin), anyfield(baseMocker, canceled), anyfield(defaultVarMocker, canceled),
+//@     | anyfield(iface.PContext, canceled), anyfield(hack.Iface, Tab), anyfield(hack.Iface, Data)
+//@   ensures cancelled: mocker_cancelled[self]
+
+//@ func (b *Builder) Reset
+//@   props C02 C12
+//@   requires receiver: b != nil && forall k interface{} :: has(b.mockers, k) ==> b.mockers[k] != nil
+//@   assigns everything
+//@   invariant loop 1 visited_are_cancelled: b != nil && (forall k interface{} :: visited(k) ==> mocker_cancelled[iter_value(k)]) && (forall k interface{} :: iterating(k) ==> iter_value(k) != nil)
+//@   ensures every_cached_mocker_is_cancelled: forall k interface{} :: old(has(b.mockers, k)) ==> mocker_cancelled[old(b.mockers[k])]
+//@   ensures same_builder: result == b
+
+//@ extern func (github.com/tencent/goom.UnExportedMocker).Cancel
+//@   assigns mocker_cancelled[self], textmem, perm, mutex_held[addr(patch.patchesLock)], rw_wheld[addr(memory.memoryAccessLock)], guard_cancelled,
+//@     | anyfield(baseMocker, when), anyfield(baseMocker, origin), anyfield(baseMocker, canceled)
+//@   ensures cancelled: mocker_cancelled[self]
+//@ extern func (github.com/tencent/goom.InterfaceMocker).Cancel
+//@   assigns mocker_cancelled[self], textmem, perm, mutex_held[addr(patch.patchesLock)], rw_wheld[addr(memory.memoryAccessLock)], guard_cancelled,
+//@     | anyfield(baseMocker, when), anyfield(baseMocker, origin), anyfield(baseMocker, canceled), anyfield(iface.PContext, canceled), anyfield(hack.Iface, Tab), anyfield(hack.Iface, Data)
+//@   ensures cancelled: mocker_cancelled[self]
+
+// cached method mockers cancel every child they have handed out
+//@ func (m *CachedMethodMocker) Cancel
+//@   props C02 C12
+//@   requires receiver: m != nil && (forall k string :: has(m.mCache, k) ==> m.mCache[k] != nil && m.mCache[k].baseMocker != nil) && (forall k string :: has(m.umCache, k) ==> m.umCache[k] != nil)
+//@   assigns everything
+//@   invariant loop 1 exported_children: m != nil && (forall k string :: visited(k) ==> iter_value(k).baseMocker.canceled && (iter_value(k).baseMocker.guard != nil ==> guard_cancelled[iter_value(k).baseMocker.guard]))
+//@     | && (forall k string :: iterating(k) ==> iter_value(k) != nil && iter_value(k).baseMocker != nil) && (forall k string :: has(m.umCache, k) ==> m.umCache[k] != nil)
+//@   invariant loop 2 unexported_children: m != nil && (forall k string :: visited(k) ==> mocker_cancelled[iter_value(k)]) && (forall k string :: iterating(k) ==> iter_value(k) != nil)
+//@   ensures unexported_children_cancelled: forall k string :: old(has(m.umCache, k)) ==> mocker_cancelled[old(m.umCache[k])]
+
+//@ func (m *CachedUnexportedMethodMocker) Cancel
+//@   props C02 C12
+//@   requires receiver: m != nil && (forall k string :: has(m.mockers, k) ==> m.mockers[k] != nil && m.mockers[k].baseMocker != nil)
+//@   assigns everything
+//@   invariant loop 1 children: m != nil && (forall k string :: visited(k) ==> iter_value(k).baseMocker.canceled) && (forall k string :: iterating(k) ==> iter_value(k) != nil && iter_value(k).baseMocker != nil)
+//@   ensures done: true
+
+//@ func (m *CachedInterfaceMocker) Cancel
+//@   props C02 C12 C07
+//@   requires receiver: m != nil && (forall k string :: has(m.mockers, k) ==> m.mockers[k] != nil)
+//@   assigns everything
+//@   invariant loop 1 children: m != nil && (forall k string :: visited(k) ==> mocker_cancelled[iter_value(k)]) && (forall k string :: iterating(k) ==> iter_value(k) != nil)
+//@   ensures every_method_mocker_cancelled: forall k string :: old(has(m.mockers, k)) ==> mocker_cancelled[old(m.mockers[k])]
